@@ -3,6 +3,8 @@ CONSTANTS
   MaxTemps = 1
   QMax = 10
   MaxPending = 1
+  CfgSet <- FewCfgs
+  Hows <- FewHows
 SPECIFICATION Spec
 INVARIANTS TypeOK Restored
 PROPERTY ExitCompletes
